@@ -371,18 +371,54 @@ pub fn split_strictly_monotone(
             debug!("Root by Right: {}", xv[i]);
             roots.push(xv[i]);
             i += 1;
-        } else if ldfs.signum() != rdfs.signum() {
-            let r = find_root_brent(
-                xv[i - 1],
-                xv[i],
-                |x| f.df(x),
-                &mut XConvergency {
-                    tol,
-                    max_iters: max_rf_iters,
-                },
-            )?;
-            debug!("Root by Finder: {r}");
-            roots.push(r);
+        } else {
+            // An exact zero that passed the saddle test above is a monotone saddle: it takes
+            // the sign of its neighbourhood, i.e. the direction in which the function moves
+            // across it, and the root bracket must not start on the zero itself. Step off it
+            // into the cell until the derivative is numerically resolved with that sign.
+            let step_off = |x0: f64, dir: f64, width: f64| -> (f64, f64) {
+                // Direction in which the function moves across the saddle, if it is resolved.
+                let df = f.f(x0 + tol) - f.f(x0 - tol);
+                let unresolved = |d: f64| d == 0f64 || (df != 0f64 && d.signum() != df.signum());
+                let mut step = tol;
+                let mut x = x0 + dir * step;
+                let mut d = f.df(x);
+                while unresolved(d) && step > 0f64 && 2f64 * step < width {
+                    step *= 2f64;
+                    x = x0 + dir * step;
+                    d = f.df(x);
+                }
+                if unresolved(d) {
+                    // Never resolved inside the cell: keep the sign of the neighbourhood.
+                    (x0, if df != 0f64 { df.signum() } else { 1f64 })
+                } else {
+                    (x, d)
+                }
+            };
+            let width = (xv[i] - xv[i - 1]).abs();
+            let (xl, ldfs) = if ldfs == 0f64 {
+                step_off(xv[i - 1], x_sign, width)
+            } else {
+                (xv[i - 1], ldfs)
+            };
+            let (xr, rdfs) = if rdfs == 0f64 {
+                step_off(xv[i], -x_sign, width)
+            } else {
+                (xv[i], rdfs)
+            };
+            if ldfs.signum() != rdfs.signum() {
+                let r = find_root_brent(
+                    xl,
+                    xr,
+                    |x| f.df(x),
+                    &mut XConvergency {
+                        tol,
+                        max_iters: max_rf_iters,
+                    },
+                )?;
+                debug!("Root by Finder: {r}");
+                roots.push(r);
+            }
         }
         i += 1;
     }
